@@ -822,6 +822,14 @@ def seq_state(rng, L, mx):
         b = [1] + [rng.randint(1, dmax) for _ in range(L - 1)] + [1]
     ts = [nprng.normal(size=(2, b[i], b[i + 1])) + 1j * nprng.normal(size=(2, b[i], b[i + 1])) for i in range(L)]
     s = MPS(L, tensors=ts, physical_dimensions=[2] * L)
+    if kind == "overcomplete" and rng.random() < 0.5:
+        # left as it is (not brought to form B, which would already shrink every bond to d * its right neighbour): the first
+        # right-to-left QR of the traced call then SHRINKS a bond — the `min` of the model's `qrl` rule decided by its first argument
+        kind = "overcomplete-raw"
+        nrm = s.norm() if hasattr(s, "norm") else 1.0
+        nrm = float(np.sqrt(abs(nrm))) if nrm else 1.0
+        s.tensors[0] = s.tensors[0] / (nrm if nrm > 0 else 1.0)
+        return kind, s
     s.normalize("B")
     return kind, s
 
